@@ -95,6 +95,158 @@ def read_sites(src):
     return out
 
 
+def ws_chars(cond, var, what, extra_ok=()):
+    """`v == ' ' || v == '\t' ...` -> sorted byte values; any other shape is an error"""
+    v = re.escape(var)
+    vals = sorted(char_lit(x) for x in re.findall(r"\b%s\s*==\s*(%s)" % (v, CH), cond))
+    if re.sub(r"\b%s\s*==\s*%s|[\s|()!]" % (v, CH), "", cond):
+        raise TranslateError("%s: unexpected condition %r" % (what, cond))
+    return vals
+
+
+def norm(s):
+    return re.sub(r"\s+", " ", s).strip()
+
+
+def switch_cases(body, what):
+    """`switch (t.kind) { case TokenKind::A: case TokenKind::B: <code> break; ... }` -> [(labels, code)] in source order"""
+    m = re.search(r"switch\s*\(\s*t\.kind\s*\)\s*\{", body)
+    if not m:
+        raise TranslateError("%s: switch (t.kind) not found" % what)
+    end = cxxscan.match_brace(body, m.end() - 1)
+    sw = body[m.end():end]
+    # split at top level of the switch body on case/default labels
+    out = []
+    depth = 0
+    i = 0
+    cur_labels, cur_code = [], []
+    tok = re.compile(r"case\s+TokenKind::(\w+)\s*:|default\s*:|[{}]")
+    pos = 0
+    for mm in tok.finditer(sw):
+        if mm.group(0) == "{":
+            depth += 1
+            continue
+        if mm.group(0) == "}":
+            depth -= 1
+            continue
+        if depth != 0:
+            continue
+        code = sw[pos:mm.start()]
+        if code.strip():
+            if not cur_labels:
+                raise TranslateError("%s: code before the first case label" % what)
+            out.append((cur_labels, norm(code)))
+            cur_labels = []
+        cur_labels.append(mm.group(1) or "default")
+        pos = mm.end()
+    code = sw[pos:]
+    if cur_labels:
+        out.append((cur_labels, norm(code)))
+    return out
+
+
+def sax_switch(src):
+    body = cxxscan.function_body(src, "runSax", signature_contains="SaxCallbacks")
+    if not re.search(r"while\s*\(\s*parser\.next\(\)\s*\)", body) or not re.search(r"return\s+parser\.error\(\)\s*==\s*nullptr\s*;", body):
+        raise TranslateError("runSax: loop / result shape not recognised")
+    out = []
+    for labels, code in switch_cases(body, "runSax"):
+        m = re.fullmatch(r"if \(cb\.(\w+)\) \{ cb\.(\w+)\(t\); \} break;", code)
+        if m and m.group(1) == m.group(2) and len(labels) == 1:
+            out.append((labels[0], m.group(1)))
+        elif code == "break;":
+            for l in labels:
+                out.append((l, "-"))
+        else:
+            raise TranslateError("runSax: case %r has an unexpected body %r" % (labels, code[:80]))
+    return out
+
+
+def dom_cases(src):
+    """DomBuilder::build: per `case`, the NodeType it creates and where the node's value / attribute values come from"""
+    body = cxxscan.function_body(src, "build", signature_contains="Parser &parser")
+    out = []
+    for labels, code in switch_cases(body, "DomBuilder::build"):
+        types = sorted(set(re.findall(r"->type\s*=\s*NodeType::(\w+)", code)))
+        if len(types) > 1:
+            raise TranslateError("DomBuilder::build: case %r creates several node types" % labels)
+        ty = types[0] if types else "-"
+        decl = len(re.findall(r"std::string v\s*;", code))
+        dec = re.findall(r"Parser::decodeEntities\(\s*([\w.]+)\s*,\s*(\w+)\s*,\s*&tmp\s*\)", code)
+        if len(dec) != decl or any(t != "v" for _, t in dec):
+            raise TranslateError("DomBuilder::build: case %r: every decodeEntities call must decode into its own fresh `std::string v;` (%d declarations, calls %r)"
+                                 % (labels, decl, dec))
+        if dec:
+            # the fresh string must be declared in the same block, right before the call's statement
+            for srcv, _ in dec:
+                if not re.search(r"std::string v\s*;\s*Error tmp\{\}\s*;\s*if\s*\(\s*!\s*Parser::decodeEntities\(\s*%s\s*,\s*v\s*,\s*&tmp\s*\)\s*\)" % re.escape(srcv), code):
+                    raise TranslateError("DomBuilder::build: case %r: `std::string v; Error tmp{}; if (!Parser::decodeEntities(%s, v, &tmp))` not found" % (labels, srcv))
+            val = "decoded:" + ",".join(s for s, _ in dec)
+            if not re.search(r"std::move\(v\)", code):
+                raise TranslateError("DomBuilder::build: case %r: the decoded string is not moved into the node" % labels)
+        else:
+            raw = re.findall(r"->value\s*=\s*std::string\(\s*([\w.]+)\s*\)", code)
+            val = ("raw:" + ",".join(raw)) if raw else "-"
+        guard = re.findall(r"if\s*\(\s*(!?\s*v\.[^)]*\)[^)]*)\)\s*\{\s*auto n", code)
+        g = norm(guard[0]) if guard else "-"
+        for l in labels:
+            out.append((l, ty, val, g))
+    return out
+
+
+def limit_tests(src):
+    """every `if (...)` condition of the Parser that mentions an `_opt.` member: (function, normalised condition), source order"""
+    out = []
+    for fn in READ_FUNCS:
+        if fn == "next":
+            body = cxxscan.function_body(src, "next", signature_contains="next()")
+        elif fn in ("matchString", "matchWordCaseInsensitive"):
+            body = cxxscan.function_body(src, fn, signature_contains="const char")
+        else:
+            body = cxxscan.function_body(src, fn)
+        for m in re.finditer(r"\bif\s*\(", body):
+            j = m.end() - 1
+            depth = 0
+            k = j
+            while k < len(body):
+                if body[k] == "(":
+                    depth += 1
+                elif body[k] == ")":
+                    depth -= 1
+                    if depth == 0:
+                        break
+                k += 1
+            cond = norm(body[j + 1:k])
+            if "_opt." in cond:
+                out.append((fn, cond))
+    n_opt = len(re.findall(r"_opt\.\w+", re.sub(r"Parser\(std::string_view input[^{]*\{", "", src)))
+    n_seen = sum(len(re.findall(r"_opt\.\w+", c)) for _, c in out)
+    if n_opt != n_seen:
+        raise TranslateError("Options members are read %d times in the header, %d times inside recognised `if` conditions" % (n_opt, n_seen))
+    return out
+
+
+DEC_READ_RE = re.compile(r"\b(?:in|ent|entBody)\[[^\]]*\]")
+DEC_GUARD_RE = re.compile(r"\b\w+\.size\(\)\s*(?:<=|>=|<|>)\s*\w+|\b\w+\s*(?:<=|>=|<|>)\s*\w+\.size\(\)|!\s*\w+\.empty\(\)")
+
+
+def decode_read_sites(src):
+    """the same table as read_sites for the indexed reads of decodeEntities / appendCharRef (`in[i]`, `ent[0]`, `entBody[...]`)"""
+    out = []
+    for fn, sig in (("decodeEntities", "std::string &out"), ("appendCharRef", "entBody")):
+        body = re.sub(r"\s+", " ", cxxscan.function_body(src, fn, signature_contains=sig))
+        guards = [(m.end(), re.sub(r"\s+", " ", m.group(0))) for m in DEC_GUARD_RE.finditer(body)]
+        for m in DEC_READ_RE.finditer(body):
+            g, between = "none", ""
+            for end, txt in guards:
+                if end <= m.start():
+                    g, between = txt, body[end:m.start()].strip()
+            out.append((fn, m.group(0), g, between))
+    if len(out) < 4:
+        raise TranslateError("decodeEntities/appendCharRef: indexed reads not recognised")
+    return out
+
+
 def gen(repo):
     src = read(repo, F)
     kinds = cxxscan.enum_items(src, "TokenKind")
@@ -185,6 +337,49 @@ def gen(repo):
     if lits != ["--", "[CDATA[", "DOCTYPE"] or until != ["-->", "]]>"] or pi_end != ["?>"]:
         raise TranslateError("markup literals changed: %r %r %r" % (lits, until, pi_end))
     sites = read_sites(src)
+    # the white-space tests that are written out separately from skipSpaces
+    swo = cxxscan.function_body(src, "skipWhitespaceOutsideText")
+    m2 = re.search(r"char\s+(\w+)\s*=\s*_input\[p\]\s*;\s*if\s*\(([^{}]*?)\)\s*\{\s*\+\+p\s*;", swo, re.S)
+    if not m2:
+        raise TranslateError("skipWhitespaceOutsideText: scan loop not recognised")
+    ws_outside = ws_chars(m2.group(2), m2.group(1), "skipWhitespaceOutsideText")
+    if not re.search(r"if\s*\(\s*p\s*<\s*_input\.size\(\)\s*&&\s*_input\[p\]\s*!=\s*'<'\s*\)\s*\{\s*return\s*;", swo):
+        raise TranslateError("skipWhitespaceOutsideText: the `only before markup or the end` test not recognised")
+    mw = cxxscan.function_body(src, "matchWordCaseInsensitive", signature_contains="const char")
+    m3 = re.search(r"if\s*\(\s*!\s*\(([^{}]*?)\)\s*\)\s*\{\s*return false;", mw, re.S)
+    if not m3 or not re.search(r"char\s+next\s*=\s*\(\s*pos\s*\+\s*i\s*<\s*_input\.size\(\)\s*\?\s*_input\[pos\s*\+\s*i\]\s*:\s*'\\0'\s*\)", mw):
+        raise TranslateError("matchWordCaseInsensitive: word-boundary test not recognised")
+    boundary = ws_chars(m3.group(1), "next", "matchWordCaseInsensitive boundary")
+    # eof(), fail() and the compile-time switch
+    meof = re.search(r"bool\s+eof\(\)\s*const\s*\{([^{}]*)\}", src)
+    if not meof:
+        raise TranslateError("eof(): definition not found")
+    eof_body = norm(meof.group(1))
+    fail_body = norm(cxxscan.function_body(src, "fail", signature_contains="const char"))
+    mthrow = re.search(r"#ifndef\s+IORA_XML_THROW_ON_ERROR\s*\n\s*#define\s+IORA_XML_THROW_ON_ERROR\s+(\d+)", src)
+    if not mthrow:
+        raise TranslateError("IORA_XML_THROW_ON_ERROR default not found")
+    mf = re.fullmatch(r"_hasError = true; _error\.offset = _cur; _error\.line = _line; _error\.column = _col; _error\.message = msg; "
+                      r"#if IORA_XML_THROW_ON_ERROR throw std::runtime_error\(_error\.message\); #else \(void\)msg; #endif return false;", fail_body)
+    if not mf:
+        raise TranslateError("fail(): body not recognised (the error must be recorded before the conditional throw): %r" % fail_body)
+    n_throw = len(re.findall(r"\bthrow\b", src))
+    if n_throw != 1:
+        raise TranslateError("%d throw statements in the header (the model knows the one in fail())" % n_throw)
+    # decodeEntities starts from an empty output
+    first = norm(dec).split(";")[0] + ";"
+    # the public next(): the two latches come first
+    nb = norm(nxt)
+    if not nb.startswith("if (_hasError) { return false; } if (_emittedEof) { return false; } if (_opt.maxTotalTokens"):
+        raise TranslateError("next(): the `_hasError` / `_emittedEof` latches are not the first two tests")
+    sax = sax_switch(src)
+    domc = dom_cases(src)
+    lims = limit_tests(src)
+    dsites = decode_read_sites(src)
+    mdt = re.search(r"~Node\(\)\s*\{", src)
+    if not mdt:
+        raise TranslateError("~Node(): user-provided destructor not found (FC14a: the implicit one recurses per nesting level)")
+    dtor = norm(src[mdt.end():cxxscan.match_brace(src, mdt.end() - 1)])
     t = HEADER % F
     t += "namespace Iora.Gen.Xml\n"
     t += "/-- `enum class TokenKind` enumerators (name, value) -/\n"
@@ -193,12 +388,9 @@ def gen(repo):
     t += "def defaultMaxDepth : Nat := %d\ndef defaultMaxAttrsPerElement : Nat := %d\ndef defaultMaxNameLength : Nat := %d\n" % (
         dflt["maxDepth"], dflt["maxAttrsPerElement"], dflt["maxNameLength"])
     t += "def defaultMaxTextSpan : Nat := %d\ndef defaultMaxTotalTokens : Nat := %d\n" % (dflt["maxTextSpan"], dflt["maxTotalTokens"])
-    t += "def defaultPermissive : Bool := %s\ndef defaultNamespaceProcessing : Bool := %s\n" % (dflt["permissive"], dflt["namespaceProcessing"])
     t += "/-- option fields that are declared but read nowhere in the header (the model has no such inputs) -/\n"
     t += "def unusedOptionFields : List String := [%s]\n" % ", ".join(lean_str(x) for x in unused)
-    t += "/-- the `ent == \"...\"` chain of `decodeEntities` in source order: (name, byte pushed) -/\n"
-    t += "def entityTable : List (String × Nat) := %s\n" % lean_str_nat_list(ents)
-    t += "/-- the same chain with the names as byte values (what the model's lookup uses) -/\n"
+    t += "/-- the `ent == \"...\"` chain of `decodeEntities` in source order: (name as byte values, byte pushed) — what the model's lookup uses -/\n"
     t += "def entityBytes : List (List Nat × Nat) := [%s]\n" % ", ".join("(%s, %d)" % (lean_nat_list(list(n.encode())), c) for n, c in ents)
     t += "/-- bytes `skipSpaces` treats as white space -/\n"
     t += "def whitespace : List Nat := %s\n" % lean_nat_list(ws)
@@ -216,5 +408,27 @@ def gen(repo):
     t += "(function, read, nearest preceding comparison with the input size in that function or `none`, the code between the two) -/\n"
     t += "def readSites : List (String × String × String × String) := [%s]\n" % ",\n  ".join(
         "(%s, %s, %s, %s)" % (lean_str(a), lean_str(b), lean_str(c), lean_str(d)) for a, b, c, d in sites)
+    def quad(xs):
+        return "[%s]" % ",\n  ".join("(" + ", ".join(lean_str(y) for y in x) + ")" for x in xs)
+    t += "/-- the white-space test written out in `skipWhitespaceOutsideText` (a separate copy of the one in `skipSpaces`) -/\n"
+    t += "def whitespaceOutsideText : List Nat := %s\n" % lean_nat_list(ws_outside)
+    t += "/-- the bytes `matchWordCaseInsensitive` accepts after the word (its own copy of the white-space set, plus `>` and `[`) -/\n"
+    t += "def doctypeBoundary : List Nat := %s\n" % lean_nat_list(boundary)
+    t += "/-- `eof()` -/\n"
+    t += "def eofBody : String := %s\n" % lean_str(eof_body)
+    t += "/-- default of the compile-time switch IORA_XML_THROW_ON_ERROR; `fail()` records the error and then throws iff it is non-zero\n(the body of `fail()` is matched literally by the translator; it is the only `throw` in the header) -/\n"
+    t += "def throwOnErrorDefault : Nat := %s\n" % mthrow.group(1)
+    t += "/-- first statement of `decodeEntities` -/\n"
+    t += "def decodeFirstStatement : String := %s\n" % lean_str(first)
+    t += "/-- body of `Node::~Node()` (FC14a: iterative work-list destruction) -/\n"
+    t += "def nodeDtorBody : String := %s\n" % lean_str(dtor)
+    t += "/-- every indexed read in `decodeEntities` / `appendCharRef` with the guard that dominates it (same format as `readSites`) -/\n"
+    t += "def decodeReadSites : List (String × String × String × String) := %s\n" % quad(dsites)
+    t += "/-- every `if` condition of the tokenizer that reads an `Options` member: (function, condition) -/\n"
+    t += "def limitTests : List (String × String) := %s\n" % quad(lims)
+    t += "/-- the `switch (t.kind)` of `runSax`: (case label, member invoked or `-`) -/\n"
+    t += "def saxSwitch : List (String × String) := %s\n" % quad(sax)
+    t += "/-- the `switch (t.kind)` of `DomBuilder::build`: (case label, NodeType created or `-`, where the value comes from — `decoded:<slice>` = a FRESH\nstring filled by `decodeEntities` and moved into the node, `raw:<slice>` = copied —, the guard on creating the node or `-`) -/\n"
+    t += "def domCases : List (String × String × String × String) := %s\n" % quad(domc)
     t += "end Iora.Gen.Xml\n"
     return "IoraModel/Gen/Xml.lean", t
